@@ -7,7 +7,7 @@ ops (addresses are symbolic; `mk:<denom>` is the marker address of `<denom>`):
                  | <denom>;c|r;p|f|a|c|d;<grants>;<reqattrs>;<deny>
        grants    = <addr>+<rights>,…   rights ⊆ m b d w e a t f   (mint burn deposit withdraw delete admin transfer force)
        → allow | deny:<class>
-  bank <same fields> via=send|inout      the same movement through the real bank keeper
+  bank <same fields> via=send|inout|delegate   the same movement through the real bank keeper
        → allow moved | deny:<class> unmoved
   match <required> <attribute>           keeper.MatchAttribute            → 1 | 0      (`~` = empty string)
   bypasslist                             the app's required-attribute bypass set → sorted symbolic names
